@@ -183,7 +183,9 @@ func runC17(r *report.Run) {
 	par.For(255, func(_, i int) {
 		cs := c17Case{Op: "first-divisor", Div: uint8(i + 1)}
 		atomic.AddInt64(&firstDiv, 1)
-		if sig, what := c17CheckOne(cs); sig != "" {
+		if sig, what := c17CheckOne(cs); sig == "oracle-broken" {
+			r.Incomplete(what) // the child could not be started: not a verdict about the library
+		} else if sig != "" {
 			r.Violation(sig, what, cs)
 		}
 	})
